@@ -5,6 +5,7 @@ mod c02;
 mod c03;
 mod c06;
 mod c09;
+mod c10;
 mod c13;
 mod smoke;
 
@@ -14,6 +15,7 @@ fn main() {
     let args = Args::parse();
     let mut rep = Report::new(&args);
     match args.prop.to_lowercase().as_str() {
+        "c10" => c10::run(&args, &mut rep),
         "c13" => c13::run(&args, &mut rep),
         "smoke" => smoke::run(&args, &mut rep),
         "c02" => c02::run(&args, &mut rep),
